@@ -253,17 +253,20 @@ def _reductions(x):
             yield x[1:]
 
 
-def shrink(op, still_fails, budget=40):
+def shrink(op, still_fails, budget=40, seconds=25):
     """Greedy delta debugging on op['args'] (plain JSON structure). still_fails(list of candidate
     ops) -> index of first candidate that still fails or None."""
     cur = op
+    t_end = time.time() + seconds
     for _ in range(budget):
+        if time.time() > t_end:
+            break
         cands = []
         for r in _reductions(cur["args"]):
             c = dict(cur)
             c["args"] = r
             cands.append(c)
-            if len(cands) >= 400:
+            if len(cands) >= 120:
                 break
         if not cands:
             break
@@ -374,9 +377,14 @@ def _run(pid, mod, tier, seed, replay, n_override, scratch, t0, violations, know
         ops += mod.gen(rng, tier, nops)
     for i, o in enumerate(ops):
         o["id"] = i
-    shards = 4 if tier == "quick" else 16
-    go_res = eval_ops(ops, vh, "go", shards=shards, env=GOENV)
+    shards = 8 if tier == "quick" else 16
     mo_res = eval_ops(ops, drv, "model", shards=shards) if drv else {}
+    filtered = 0
+    if hasattr(mod, "PREFILTER"):
+        keep = [o for o in ops if mod.PREFILTER(o, mo_res.get(o["id"]))]
+        filtered = len(ops) - len(keep)
+        ops = keep
+    go_res = eval_ops(ops, vh, "go", shards=shards, env=GOENV)
 
     counts = {}
     distinct = set()
@@ -477,7 +485,7 @@ def _run(pid, mod, tier, seed, replay, n_override, scratch, t0, violations, know
             "fact_obligations": fact_obl,
             "evaluations": len(ops), "distinct_nontrivial": len(distinct), "rule": mod.RULE,
             "samples": samples, "traces_validated_against_impl": agree,
-            "classification": counts, "extra": extra,
+            "classification": counts, "extra": extra, "filtered_before_go": filtered,
         },
         "assumptions": getattr(mod, "ASSUMPTIONS", []),
         "wall_s": round(time.time() - t0, 2),
